@@ -467,6 +467,9 @@ class Num(Val):
         self.seg = None         # D3 index map (list of segmap.Seg) when the array is a re-arrangement
         self.segax = 0          # axis the index map describes (arrays of rank > 1)
         self.mirror = False     # the vector is the complex conjugate of a spectrum-bearing vector (rows of Vh)
+        self.tr = False         # matrix is the transpose of the matrix it was derived from (toggled by transpose)
+        self.base_uid = None    # uid of the matrix this one was derived from by transpose / conj
+        self.q = None           # D4 modulation charge (see charge.py); only maintained when the interpreter runs with d4=True
         self.view_of = frozenset()   # may share memory with these caller-owned arrays (slices, asarray, transpose)
         self.org = None         # index at which the array's natural origin sits (lag 0 of a correlation, zero of an arange)
         self.sz = sp.Integer(1)  # normalisation signature: product of explicit size factors applied so far (None = mixed)
@@ -491,6 +494,9 @@ class Num(Val):
         n.mirror = self.mirror
         n.sz = self.sz
         n.org = self.org
+        n.q = self.q
+        n.tr = self.tr
+        n.base_uid = self.base_uid if self.base_uid is not None else self.uid
         for k, v in kw.items():
             setattr(n, k, v)
         return n
@@ -634,22 +640,27 @@ def tonum(v):
         n = Num(d, (), False, taint=v.taint, nonneg=False)
         n.ex = v.a
         n.sx = v.sx
+        n.q = Aff(0)
         if v.a is not None and not v.a.is_const():
             n.sz = v.a.to_sympy()
         elif v.a is None and v.sx is not None:
             n.sz = v.sx
         return n
     if isinstance(v, BoolV):
-        return Num(zero_deg(), (), False, taint=v.taint)
+        n = Num(zero_deg(), (), False, taint=v.taint)
+        n.q = Aff(0)
+        return n
     if isinstance(v, Const):
         if isinstance(v.v, bool):
             return Num(zero_deg(), (), False, taint=v.taint)
         if isinstance(v.v, (int, float)):
             n = Num(zero_deg(), (), False, zero=(v.v == 0), taint=v.taint, nonneg=(v.v >= 0))
             n.ex = aff(v.v)
+            n.q = 'any' if v.v == 0 else Aff(0)
             return n
         if isinstance(v.v, complex):
             n = Num(zero_deg(), (), True, zero=(v.v == 0), taint=v.taint, rv=(v.v.imag == 0))
+            n.q = 'any' if v.v == 0 else Aff(0)
             return n
         if isinstance(v.v, (list, tuple)) and all(isinstance(x, (int, float, complex)) and not isinstance(x, bool) for x in v.v):
             return Num(zero_deg(), (Aff(len(v.v)),), any(isinstance(x, complex) for x in v.v),
@@ -718,6 +729,11 @@ def num_join(a, b):
     r.ex = a.ex if (a.ex is not None and b.ex is not None and a.ex == b.ex) else None
     r.mirror = a.mirror if (b.zero or a.mirror == b.mirror) else (b.mirror if a.zero else False)
     r.sz = sz_join(a, b)
+    if a.q is None and b.q is None:
+        r.q = None
+    else:
+        from .charge import q_join
+        r.q = q_join(a.q, b.q)
     if a.seg is not None or b.seg is not None:
         from . import segmap
         if a.zero and a.seg is None:
